@@ -112,10 +112,21 @@ func newApp() (*c4eapp.App, appparams.EncodingConfig) {
 	return app, enc
 }
 
+// AppOptions are the node-operator options the next applications are built with (nil =
+// defaults). Operators legitimately differ in them, e.g. --x-crisis-skip-assert-invariants.
+var AppOptions map[string]interface{}
+
+// InvCheckPeriod is the --inv-check-period of the next applications (0 = never).
+var InvCheckPeriod uint
+
+type optMap map[string]interface{}
+
+func (m optMap) Get(k string) interface{} { return m[k] }
+
 func newAppDB(db dbm.DB) (*c4eapp.App, appparams.EncodingConfig, dbm.DB) {
 	encoding := c4eapp.MakeEncodingConfig()
 	enc := appparams.EncodingConfig(encoding)
-	app := c4eapp.New(log.NewNopLogger(), db, nil, true, map[int64]bool{}, c4eapp.DefaultNodeHome, 0, enc, simapp.EmptyAppOptions{})
+	app := c4eapp.New(log.NewNopLogger(), db, nil, true, map[int64]bool{}, c4eapp.DefaultNodeHome, InvCheckPeriod, enc, optMap(AppOptions))
 	return app, enc, db
 }
 
@@ -546,6 +557,30 @@ func (n *Node) GovExec(msg sdk.Msg) (res *sdk.Result, events []abci.Event, err e
 	}
 	write()
 	return res, res.Events, nil
+}
+
+// HandlerExec runs the registered message handler without the stateless checks (the way
+// another module or a wrapping message would call it); effects are kept iff it succeeds.
+func (n *Node) HandlerExec(msg sdk.Msg) (err error) {
+	// not recorded for replay: a message with an empty or malformed authority cannot be
+	// encoded into the recorded history (its signer cannot be derived)
+	defer func() {
+		if r := recover(); r != nil {
+			err = &PanicError{Where: "HandlerExec", Value: fmt.Sprint(r), Stack: string(debug.Stack())}
+		}
+	}()
+	handler := n.App.MsgServiceRouter().Handler(msg)
+	if handler == nil {
+		return fmt.Errorf("no handler for %s", sdk.MsgTypeURL(msg))
+	}
+	cacheCtx, write := n.Ctx().CacheContext()
+	res, herr := handler(cacheCtx, msg)
+	if herr != nil {
+		return herr
+	}
+	_ = res
+	write()
+	return nil
 }
 
 // ExecOnBranch runs fn on a branched deliver-state context; writes back iff fn
